@@ -18,6 +18,14 @@
    hold for every classifier, the correspondence check runs the model with the
    binary64 instances below (PrimFloat, bit-exact with CPython).
 
+   The five configuration attributes of the object (max_operations,
+   error_threshold, allow_renewal, max_lifetime, idle_timeout) are public and
+   plain: their owner may ASSIGN them on a live object between calls.  Such an
+   assignment is an operation of the history language ([SetMaxOps] ...
+   [SetIdleTimeout]); it changes no lifecycle attribute, and every later call
+   reads the value then in force ([cfg_step], [cfg_exec]).  A history is run
+   from the configuration the constructor was given.
+
    [variant] carries the two switches for the behaviour before the two `fix:`
    commits (c2e89f1: threading.Lock -> RLock; 0bec2cb: only ACTIVE can enter
    senescence).  The property theorems are about [current]; refutations of
@@ -66,7 +74,42 @@ Inductive op :=
   | TriggerApoptosis
   | Terminate
   | Reset
-  | Advance (d : Z).
+  | Advance (d : Z)
+  (* assignments to the public configuration attributes of the live object *)
+  | SetMaxOps (n : Z)                 (* t.max_operations = n *)
+  | SetErrThreshold (n : Z)           (* t.error_threshold = n *)
+  | SetAllowRenewal (b : bool)        (* t.allow_renewal = b *)
+  | SetMaxLifetime (l : option Z)     (* t.max_lifetime = None / timedelta *)
+  | SetIdleTimeout (l : option Z).    (* t.idle_timeout = None / timedelta *)
+
+(* the configuration in force after an operation: only the assignments change it *)
+Definition cfg_step (cfg : config) (o : op) : config :=
+  match o with
+  | SetMaxOps n => mkConfig n (err_threshold cfg) (allow_renewal cfg) (max_lifetime cfg) (idle_timeout cfg)
+  | SetErrThreshold n => mkConfig (max_ops cfg) n (allow_renewal cfg) (max_lifetime cfg) (idle_timeout cfg)
+  | SetAllowRenewal b => mkConfig (max_ops cfg) (err_threshold cfg) b (max_lifetime cfg) (idle_timeout cfg)
+  | SetMaxLifetime l => mkConfig (max_ops cfg) (err_threshold cfg) (allow_renewal cfg) l (idle_timeout cfg)
+  | SetIdleTimeout l => mkConfig (max_ops cfg) (err_threshold cfg) (allow_renewal cfg) (max_lifetime cfg) l
+  | _ => cfg
+  end.
+
+(* ... and after a history *)
+Fixpoint cfg_exec (cfg : config) (ops : list op) : config :=
+  match ops with
+  | [] => cfg
+  | o :: rest => cfg_exec (cfg_step cfg o) rest
+  end.
+
+Definition is_assignment (o : op) : bool :=
+  match o with
+  | SetMaxOps _ | SetErrThreshold _ | SetAllowRenewal _ | SetMaxLifetime _ | SetIdleTimeout _ => true
+  | _ => false
+  end.
+Definition assigns_max_ops (o : op) : bool := match o with SetMaxOps _ => true | _ => false end.
+Definition assigns_err_threshold (o : op) : bool := match o with SetErrThreshold _ => true | _ => false end.
+Definition assigns_allow_renewal (o : op) : bool := match o with SetAllowRenewal _ => true | _ => false end.
+Definition assigns_max_lifetime (o : op) : bool := match o with SetMaxLifetime _ => true | _ => false end.
+Definition assigns_idle_timeout (o : op) : bool := match o with SetIdleTimeout _ => true | _ => false end.
 
 Inductive ret := RNone | RBool (b : bool).
 
@@ -219,25 +262,36 @@ Section Model.
     | Advance d =>
         (mkState (ph s) (len s) (ops_count s) (err_count s) (renewals s) (sen_reason s)
                  (started_at s) (last_activity s) (now s + d), Ret RNone, [])
+    (* an attribute assignment touches no lifecycle attribute, calls nothing *)
+    | SetMaxOps _ | SetErrThreshold _ | SetAllowRenewal _ | SetMaxLifetime _ | SetIdleTimeout _ =>
+        (s, Ret RNone, [])
     end.
 
   Definition step_state (cfg : config) (s : state) (o : op) : state := fst (fst (step cfg s o)).
   Definition step_out (cfg : config) (s : state) (o : op) : outcome := snd (fst (step cfg s o)).
   Definition step_trans (cfg : config) (s : state) (o : op) : list trans := snd (step cfg s o).
 
-  (* state after a history (a call that hangs or raises leaves the state it
-     had reached) *)
+  (* state after a history that starts with configuration [cfg] in force (a
+     call that hangs or raises leaves the state it had reached); the
+     configuration in force afterwards is [cfg_exec cfg ops] *)
   Fixpoint exec (cfg : config) (s : state) (ops : list op) : state :=
     match ops with
     | [] => s
-    | o :: rest => exec cfg (step_state cfg s o) rest
+    | o :: rest => exec (cfg_step cfg o) (step_state cfg s o) rest
     end.
 
   (* the whole on_phase_change stream of a history *)
   Fixpoint stream (cfg : config) (s : state) (ops : list op) : list trans :=
     match ops with
     | [] => []
-    | o :: rest => step_trans cfg s o ++ stream cfg (step_state cfg s o) rest
+    | o :: rest => step_trans cfg s o ++ stream (cfg_step cfg o) (step_state cfg s o) rest
+    end.
+
+  (* the outcome of every call of a history, in order *)
+  Fixpoint outcomes (cfg : config) (s : state) (ops : list op) : list (op * outcome) :=
+    match ops with
+    | [] => []
+    | o :: rest => (o, step_out cfg s o) :: outcomes (cfg_step cfg o) (step_state cfg s o) rest
     end.
 
   (* Hayflick bookkeeping: number of unit ticks that reported True since the
@@ -257,18 +311,23 @@ Section Model.
 
   Definition tick_cost (o : op) : Z := match o with Tick c => c | _ => 0 end.
 
-  (* (final state, unit ticks reporting True since last renewal,
+  (* (final state,
+      cap = the max_operations in force when the telomere was last filled:
+            by the constructor, a renewal or reset,
+      unit ticks reporting True since last renewal,
       total cost of ticks reporting True since last renewal) *)
-  Fixpoint exec_count (cfg : config) (s : state) (n spent : Z) (ops : list op) : state * Z * Z :=
+  Fixpoint exec_count (cfg : config) (s : state) (cap n spent : Z) (ops : list op)
+    : state * Z * Z * Z :=
     match ops with
-    | [] => (s, n, spent)
+    | [] => (s, cap, n, spent)
     | o :: rest =>
         let r := step_out cfg s o in
         let s' := step_state cfg s o in
-        if is_renewal o r then exec_count cfg s' 0 0 rest
+        let cfg' := cfg_step cfg o in
+        if is_renewal o r then exec_count cfg' s' (max_ops cfg) 0 0 rest
         else if is_true_tick o r
-             then exec_count cfg s' (if tick_cost o =? 1 then n + 1 else n) (spent + tick_cost o) rest
-             else exec_count cfg s' n spent rest
+             then exec_count cfg' s' cap (if tick_cost o =? 1 then n + 1 else n) (spent + tick_cost o) rest
+             else exec_count cfg' s' cap n spent rest
     end.
 End Model.
 
@@ -309,13 +368,21 @@ Fixpoint chain (p : phase) (tr : list trans) (q : phase) : Prop :=
   | (a, b) :: rest => a = p /\ chain b rest q
   end.
 
-(* costs and renewal amounts are non-negative (reading of the property) *)
+(* costs and renewal amounts are non-negative (reading of the property); a
+   max_operations assigned to a live object is positive (the property's
+   configurations: 1..12 - with max_operations = 0 and length left the ratio
+   length / max_operations of the next tick raises ZeroDivisionError) *)
 Definition valid_op (o : op) : Prop :=
   match o with
   | Tick c => 0 <= c
   | Renew (Some a) _ => 0 <= a
+  | SetMaxOps n => 0 < n
   | _ => True
   end.
+
+(* no max_operations above M is ever assigned *)
+Definition max_ops_within (M : Z) (o : op) : Prop :=
+  match o with SetMaxOps n => n <= M | _ => True end.
 
 (* the clock does not run backwards ("clock advance"); the amount is not
    bounded: seconds, days, years *)
@@ -441,8 +508,13 @@ Definition obs_row (s : state) (r : outcome) (tr : list trans) : list Z :=
    reason_code (sen_reason s); ot_code (started_at s); ot_code (last_activity s)]
   ++ flat_map (fun t : trans => [phase_code (fst t); phase_code (snd t)]) tr.
 
+Definition cfg_row (cfg : config) : list Z :=
+  [max_ops cfg; err_threshold cfg; (if allow_renewal cfg then 1 else 0);
+   ot_code (max_lifetime cfg); ot_code (idle_timeout cfg)].
+
 (* one row per call; a call that never returns is the row [-999] and ends the
-   history (its thread still owns the lock) *)
+   history (its thread still owns the lock); the row of an attribute
+   assignment ends with the five configuration attributes read back *)
 Fixpoint run_obs (v : variant) (cfg : config) (s : state) (ops : list op) : list (list Z) :=
   match ops with
   | [] => []
@@ -450,13 +522,10 @@ Fixpoint run_obs (v : variant) (cfg : config) (s : state) (ops : list op) : list
       let '(s', r, tr) := step depleted_f64 rate_hit_f64 v cfg s o in
       match r with
       | Hang => [[-999]]
-      | _ => obs_row s' r tr :: run_obs v cfg s' rest
+      | _ => (obs_row s' r tr ++ (if is_assignment o then cfg_row (cfg_step cfg o) else []))
+             :: run_obs v (cfg_step cfg o) s' rest
       end
   end.
-
-Definition cfg_row (cfg : config) : list Z :=
-  [max_ops cfg; err_threshold cfg; (if allow_renewal cfg then 1 else 0);
-   ot_code (max_lifetime cfg); ot_code (idle_timeout cfg)].
 
 Definition case := (variant * config * list op)%type.
 
